@@ -159,6 +159,27 @@ def clientStream (cs : List Bytes) : Except Err SR :=
   | none => .error .noData
   | some x => .ok ⟨x.1 :: x.2, []⟩
 
+/-! ## `safe_dds_and_data` + `unpack_dap2_data(BytesReader(data), …)`: the array path (`BaseProxyDap2.__getitem__`) -/
+
+/-- `b"\nData:\n"` in `safe_dds_and_data` (and `open_dods_url`) -/
+def ddsSeparator : Bytes := [10, 68, 97, 116, 97, 58, 10]
+
+/-- `_dds, data = raw.split(b"\nData:\n", 1)` on the joined body (`r.body` / `r.content`): the data part;
+    `none` = the unpacking `ValueError` when the separator is missing -/
+def splitData (raw : Bytes) : Option Bytes := afterFirst ddsSeparator raw
+
+def fstOf (x : Except Err (α × Bytes)) : Except Err α :=
+  match x with
+  | .ok y => .ok y.1
+  | .error e => .error e
+
+/-- the array path for an arbitrary decoder of the data part (whatever the dataset declares: arrays,
+    strings, structures, grids, sequences): split, then decode through a `BytesReader` -/
+def bodyPath (d : Dec α) (raw : Bytes) : Except Err α :=
+  match splitData raw with
+  | none => .error .noData
+  | some data => fstOf (d.runBR data)
+
 /-! ## the record-marker loop (`unpack_sequence`) for a flat sequence of fixed-width and string columns -/
 
 def be32 : Bytes → Nat
